@@ -535,7 +535,9 @@ func (w *World) genEditStake() *PlannedTx {
 		}
 	}
 	net := v.NetAddress
-	if !v.Delegate && w.Src.Int("editnet", 0, 4) == 0 {
+	if v.Delegate {
+		net = "" // a delegate has no net address (genesis records may carry one)
+	} else if w.Src.Int("editnet", 0, 4) == 0 {
 		net = "tcp://10.0.0.2"
 	}
 	msg := &fsm.MessageEditStake{Address: v.Address, Amount: amt, Committees: cs, NetAddress: net, OutputAddress: out, Compound: w.Src.Int("compound", 0, 1) == 1}
